@@ -40,4 +40,67 @@ CONSTANTS = {
         ("DECIMAL256_MAX_SCALE", _DT, r"pub const DECIMAL256_MAX_SCALE: i8 = (\d+);", "int"),
     ],
 }
+
+# ---- shape ties: the SHAPE of a critical expression (guard, operand order, mask source).  The
+# regex must still find the expression as written (whitespace tolerant); the captured group is
+# merely the next integer literal in the file (value irrelevant).  If the expression is edited
+# the item goes LOST and `ArrowModel.C12.source_shapes` (obligation) no longer checks.
+_BOOL = "arrow-arith/src/boolean.rs"
+_ARI = "arrow-arith/src/arity.rs"
+_AGG = "arrow-arith/src/aggregate.rs"
+_NOP = "arrow-array/src/arithmetic.rs"
+_N = r".*?(\d+)"
+def _ws(x):
+    import re as _re
+    return r"\s*".join(_re.escape(t) for t in x.split())
+_SHAPES = [
+    ("SHAPE_AND_KLEENE_BOTH", _BOOL, "|a, b, c, d| (a | (c & !d)) & (c | (a & !b))"),
+    ("SHAPE_OR_KLEENE_BOTH", _BOOL, "|a, b, c, d| (a | (c & d)) & (c | (a & b))"),
+    ("SHAPE_AND_KLEENE_ONE_L", _BOOL, "left_null_buffer.buffer(), left_null_buffer.offset(), right_values.inner(), right_values.offset(), left.len(), |a, b| a | !b,"),
+    ("SHAPE_AND_KLEENE_ONE_R", _BOOL, "right_null_buffer.buffer(), right_null_buffer.offset(), left_values.inner(), left_values.offset(), left.len(), |a, b| a | !b,"),
+    ("SHAPE_OR_KLEENE_ONE_L", _BOOL, "left_nulls.buffer(), left_nulls.offset(), right_values.inner(), right_values.offset(), left.len(), |a, b| a | b,"),
+    ("SHAPE_OR_KLEENE_ONE_R", _BOOL, "right_nulls.buffer(), right_nulls.offset(), left_values.inner(), left_values.offset(), left.len(), |a, b| a | b,"),
+    ("SHAPE_KLEENE_QUAT_ORDER_AND", _BOOL, "[ left_null_buffer.buffer(), left_values.inner(), right_null_buffer.buffer(), right_values.inner(), ], [ left_null_buffer.offset(), left_values.offset(), right_null_buffer.offset(), right_values.offset(), ],"),
+    ("SHAPE_KLEENE_QUAT_ORDER_OR", _BOOL, "[ left_nulls.buffer(), left_values.inner(), right_nulls.buffer(), right_values.inner(), ], [ left_nulls.offset(), left_values.offset(), right_nulls.offset(), right_values.offset(), ],"),
+    ("SHAPE_AND_KLEENE_VALUES", _BOOL, "Ok(BooleanArray::new(left_values & right_values, nulls))"),
+    ("SHAPE_OR_KLEENE_VALUES", _BOOL, "Ok(BooleanArray::new(left_values | right_values, nulls))"),
+    ("SHAPE_BOOL_BINARY_NULLS", _BOOL, "let nulls = NullBuffer::union(left.nulls(), right.nulls()); let values = op(left.values(), right.values());"),
+    ("SHAPE_DIV_CHECKED_GUARD", _NOP, "fn div_checked(self, rhs: Self) -> Result<Self, ArrowError> { if rhs.is_zero() { Err(ArrowError::DivideByZero) } else { self.checked_div(rhs).ok_or_else("),
+    ("SHAPE_MOD_CHECKED_GUARD", _NOP, "fn mod_checked(self, rhs: Self) -> Result<Self, ArrowError> { if rhs.is_zero() { Err(ArrowError::DivideByZero) } else { self.checked_rem(rhs).ok_or_else("),
+    ("SHAPE_ADD_CHECKED", _NOP, "fn add_checked(self, rhs: Self) -> Result<Self, ArrowError> { self.checked_add(rhs).ok_or_else("),
+    ("SHAPE_NEG_CHECKED", _NOP, "fn neg_checked(self) -> Result<Self, ArrowError> { self.checked_neg().ok_or_else("),
+    ("SHAPE_INTEGER_OP_ADD", _NUM, "Op::Add => try_op!(l, l_s, r, r_s, l.add_checked(r)),"),
+    ("SHAPE_INTEGER_OP_SUB", _NUM, "Op::Sub => try_op!(l, l_s, r, r_s, l.sub_checked(r)),"),
+    ("SHAPE_INTEGER_OP_MUL", _NUM, "Op::Mul => try_op!(l, l_s, r, r_s, l.mul_checked(r)),"),
+    ("SHAPE_INTEGER_OP_DIV", _NUM, "Op::Div => try_op!(l, l_s, r, r_s, l.div_checked(r)),"),
+    ("SHAPE_INTEGER_OP_REM", _NUM, "Op::Rem => try_op!(l, l_s, r, r_s, { if r.is_zero() { Err(ArrowError::DivideByZero) } else { Ok(l.mod_wrapping(r)) } }),"),
+    ("SHAPE_TRY_OP_SCALAR_R", _NUM, "(false, true) => match ($r.null_count() == 0).then(|| $r.value(0)) { None => PrimitiveArray::new_null($l.len()), Some($r) => $l.try_unary(|$l| $op)?, },"),
+    ("SHAPE_TRY_OP_SCALAR_L", _NUM, "(true, false) => match ($l.null_count() == 0).then(|| $l.value(0)) { None => PrimitiveArray::new_null($r.len()), Some($l) => $r.try_unary(|$r| $op)?, },"),
+    ("SHAPE_TRY_BINARY_VALID_IDX", _ARI, "nulls.try_for_each_valid_idx(|idx| { unsafe { *slice.get_unchecked_mut(idx) = op(a.value_unchecked(idx), b.value_unchecked(idx))? };"),
+    ("SHAPE_BINARY_NULL_UNION", _ARI, "let nulls = NullBuffer::union(a.logical_nulls().as_ref(), b.logical_nulls().as_ref()); let values = a .values() .into_iter() .zip(b.values()) .map(|(l, r)| op(*l, *r));"),
+    ("SHAPE_I256_WRAPPING_ADD", _BIG, "let (low, carry) = self.low.overflowing_add(other.low); let high = self.high.wrapping_add(other.high).wrapping_add(carry as _);"),
+    ("SHAPE_I256_WRAPPING_SUB", _BIG, "let (low, carry) = self.low.overflowing_sub(other.low); let high = self.high.wrapping_sub(other.high).wrapping_sub(carry as _);"),
+    ("SHAPE_I256_ADD_OVERFLOW", _BIG, "let overflow = (self.high < 0) == (rhs.high < 0) && (high < 0) != (self.high < 0);"),
+    ("SHAPE_I256_SUB_OVERFLOW", _BIG, "let overflow = (self.high < 0) != (rhs.high < 0) && (high < 0) != (self.high < 0);"),
+    ("SHAPE_I256_NEG", _BIG, "Self::from_parts(!self.low, !self.high).wrapping_add(i256::ONE)"),
+    ("SHAPE_I256_CMP", _BIG, "self.high.cmp(&other.high).then(self.low.cmp(&other.low))"),
+    ("SHAPE_I256_MUL_BOTH_HIGH", _BIG, "if l_abs.high != 0 && r_abs.high != 0 { return None; }"),
+    ("SHAPE_I256_MUL_SIGN_TEST", _BIG, "if high.is_negative() == (self.is_negative() ^ other.is_negative()) { Some(Self { low, high }) } else { None }"),
+    ("SHAPE_I256_MUL_SIGNFIX", _BIG, "let (low, c) = (low ^ out_sa).overflowing_sub(out_sa); let high = (high ^ out_sa).wrapping_sub(out_sa).wrapping_sub(c as u128) as i128;"),
+    ("SHAPE_I256_WRAPPING_MUL", _BIG, "let hl = self.high.wrapping_mul(other.low as i128); let lh = (self.low as i128).wrapping_mul(other.high); Self { low, high: (high as i128).wrapping_add(hl).wrapping_add(lh), }"),
+    ("SHAPE_MULX_BODY", _BIG, "let (mut low, mut carry) = split(a_low * b_low); carry += a_high * b_low;"),
+    ("SHAPE_MULX_BODY2", _BIG, "carry += b_high * a_low;"),
+    ("SHAPE_MULX_BODY3", _BIG, "high += a_high * b_high; (low, high)"),
+    ("SHAPE_SUM_CHECKED_FOLD", _AGG, "accumulator.add_checked(*value)"),
+    ("SHAPE_SUM_ACC_NULLABLE", _AGG, "self.sum = select(valid, sum.add_wrapping(value), sum)"),
+    ("SHAPE_MIN_ACC_NULLABLE", _AGG, "let is_lt = valid & value.is_lt(min); self.min = select(is_lt, value, min);"),
+    ("SHAPE_MAX_ACC_NULLABLE", _AGG, "let is_gt = value.is_gt(max) & valid; self.max = select(is_gt, value, max);"),
+    ("SHAPE_AGG_CHUNK_VALIDITY", _AGG, "acc[i].accumulate_nullable(values[i], (validity & bit) != 0); bit <<= 1;"),
+    ("SHAPE_DECIMAL_ADD_PRECISION", _NUM, "(result_scale.saturating_add((*p1 as i8 - s1).max(*p2 as i8 - s2)) as u8) .saturating_add(1) .min(T::MAX_PRECISION);"),
+    ("SHAPE_DECIMAL_MUL_TYPE", _NUM, "let result_precision = p1.saturating_add(p2 + 1).min(T::MAX_PRECISION); let result_scale = s1.saturating_add(*s2);"),
+    ("SHAPE_DECIMAL_DIV_TYPE", _NUM, "let mul_pow = result_scale - s1 + s2;"),
+    ("SHAPE_DECIMAL_REM_PRECISION", _NUM, "(result_scale.saturating_add((*p1 as i8 - s1).min(*p2 as i8 - s2)) as u8) .min(T::MAX_PRECISION);"),
+]
+CONSTANTS["C12"] += [(n, f, _ws(x) + _N, "int") for (n, f, x) in _SHAPES]
+SHAPE_NAMES = [n for (n, _, _) in _SHAPES]
 FUNCTIONS = {}
